@@ -194,18 +194,20 @@ func SharedFromCorpus(rng *rand.Rand, progs []string) Shared {
 // command read by getline, a command written to by print. Every interpreter of a concurrent round
 // builds its own command line from the same (package-level) default. Records come from a file
 // operand, never from Stdin: os/exec copies a non-file Stdin into every child from a goroutine
-// of its own, so which records are left for the program would depend on timing.
+// of its own, so which records are left for the program would depend on timing. No child writes
+// to the standard output it inherits: with a non-file Config.Output that goes through os/exec's
+// copier, whose data goawk's WaitDelay (250 ms) drops on a loaded machine (C13's known finding).
 var ExecShared = []Shared{
 	{Gen: "exec", Exec: true, Features: []string{"exec-system", "exec-getline", "exec-print-pipe"}, Args: []string{"data.txt"},
 		Src: `BEGIN { r = system("exit 3"); print "sys", r; "echo hi" | getline x; close("echo hi"); print "got", x }
 { cmd = "echo " $1 "-" NR; cmd | getline y; r2 = close(cmd); print y, r2 }
-END { print "to-cat" | "cat"; r3 = close("cat"); print "end", r3, system("true"), system("exit 1") }
+END { print "to-cat" | "cat >/dev/null"; r3 = close("cat >/dev/null"); print "end", r3, system("true"), system("exit 1") }
 `},
 	{Gen: "exec", Exec: true, Features: []string{"exec-print-pipe-end-of-run"}, Args: []string{"data.txt"},
-		Src: `{ print $1 | "sort" }
-END { print "sorted below" }
+		Src: `{ print $1 | "sort >/dev/null" }
+END { print "sorted nowhere" }
 `},
 	{Gen: "exec", Exec: true, Features: []string{"exec-getline-loop"}, Input: "",
-		Src: `BEGIN { while (("printf 'a\\nb\\nc\\n'" | getline l) > 0) n = n l; print n; close("printf 'a\\nb\\nc\\n'"); system("echo from-child") ; print "after" }
+		Src: `BEGIN { while (("printf 'a\\nb\\nc\\n'" | getline l) > 0) n = n l; print n; close("printf 'a\\nb\\nc\\n'"); r = system("exit 7"); print "after", r }
 `},
 }
